@@ -116,6 +116,7 @@ def run(ctx):
     r114(ctx)
     r119_views(ctx)
     r121(ctx)
+    r122(ctx)
     from . import c02 as _c02
     _c02.r29(ctx, 'R1.20')
     from . import c07
@@ -602,3 +603,19 @@ def r121(ctx, rule='R1.21'):
         ok = any(isinstance(x, ast.If) and 'len(row_group)' in norm(x.test) and any(isinstance(y, ast.Continue) for y in x.body) for x in pre)
         ctx.ob(rule, 'writer.write_multi:no-part-file-for-an-empty-chunk', ok,
                'make_part_file returns None for an empty frame; opening the part first leaves a 0-byte file and fails on rg.columns', wr.loc(c))
+
+
+def r122(ctx, rule='R1.22'):
+    """iter_dataframe: an explicit list of row group offsets must cover the frame exactly once (start at 0, strictly
+    increasing); anything else is refused instead of dropping or repeating rows"""
+    wr = ctx.repo['writer']
+    f = wr.func('iter_dataframe')
+    raises = [r for r in walk_no_nested(f) if isinstance(r, ast.Raise)]
+    cfg = CFG(f)
+    ok = False
+    for r in raises:
+        tests = ' '.join(norm(e.test) for e, fld in cfg.enclosing_tests(r) if isinstance(e, ast.If))
+        if '[0]' in tests and 'sorted(' in tests:
+            ok = True
+    ctx.ob(rule, 'writer.iter_dataframe:offsets-must-start-at-zero-and-increase', ok,
+           'rows before the first offset are not in any chunk; offsets out of order put rows into two chunks', wr.loc(f))
